@@ -149,6 +149,29 @@ func runC09(c *Ctx) {
 		u2 := g2.U
 		seen := map[ssa.Value]bool{}
 		var walk func(v ssa.Value)
+		var curRet *ssa.Return
+		// the unfiltered list is returned only where the collection of its exception rules is empty
+		noExceptionsAt := func(ret *ssa.Return, src *ssa.Call) bool {
+			rc := s2.RCAt(ret)
+			srcE := s2.Env[src]
+			if srcE == nil {
+				return false
+			}
+			for _, at := range u2.AtomsOf(rc) {
+				if at.Op != "eq" || !u2.bdd.Implies(rc, u2.Atom(at)) {
+					continue
+				}
+				for i := 0; i < 2; i++ {
+					x, k := at.Args[i], at.Args[1-i]
+					if x.Op == "len" && isIntConst(k, 0) {
+						if collectsAll(g2, s2, x.Args[0], srcE, func(el *E) Ref { return u2.Atom(u2.Field(el, "Whitelist", types.Typ[types.Bool])) }) {
+							return true
+						}
+					}
+				}
+			}
+			return false
+		}
 		// filtered in place: a slice built by appending, to an empty prefix x[:0] (or nil), only
 		// elements that are not exception rules
 		inPlace := func(v ssa.Value) bool {
@@ -211,6 +234,9 @@ func runC09(c *Ctx) {
 					}
 					walk(x.Call.Args[0])
 				case cal == dra:
+					if curRet != nil && noExceptionsAt(curRet, x) {
+						return // returned as is only when it holds no exception rule
+					}
 					bad = "a value returned by DNSRewrites comes from DNSRewritesAll() without passing a filter that deletes the exception rules (Whitelist)"
 				default:
 					bad = "UNDECIDED: result derived from an unrecognised call " + x.String()
@@ -221,6 +247,9 @@ func runC09(c *Ctx) {
 		}
 		eachInstr(dr, func(_ *ssa.BasicBlock, in ssa.Instruction) {
 			if r, ok := in.(*ssa.Return); ok {
+				// every return site is judged on its own: what reaches it, under its reach condition
+				seen = map[ssa.Value]bool{}
+				curRet = r
 				walk(r.Results[0])
 			}
 		})
